@@ -113,7 +113,7 @@ class ConfigList(ComposedNode, list):
         list.clear(self)
 
     def extend(self, other):
-        for val in other:
+        for val in list(other): # ("other" can be this very list)
             self.append(val)
 
     def insert(self, index, value):
